@@ -39,6 +39,9 @@ CLAIMED.update({
  "C15": C("property-based testing: generated graphs incl. blossom gadgets / flow networks; oracle = validity predicate from mate() + bitmask-DP optimum; capacity/conservation predicate + exhaustive min-cut enumeration",
           "greedy_matching/maximum_matching on 10 encodings (all Matching accessors cross-checked, size equal to the DP optimum on undirected storage) and ford_fulkerson on Graph and StableGraph with node and edge vacancies (u32 and exact f64 capacities, every s != t).",
           "the bitmask DP and the cut enumeration in props/c15.rs", "DESIGN.md section 5, C15"),
+ "C16": C("property-based testing: generated graphs; oracle = vertex-deletion reachability (dominance relation, articulation points) by brute force",
+          "dominators::simple_fast for every root on 6 encodings (all five accessors) and articulation_points on 5 encodings compared with the path-based definitions.",
+          "the deletion-reachability helpers in props/c16.rs", "DESIGN.md section 5, C16"),
 })
 PLANNED = {}
 
